@@ -305,12 +305,17 @@ theorem supersampled_statistic_mean (s : Shape) (nx ny : Nat) (xs ys : List Rat)
     supersampledStat .mean s nx ny xs ys = supersampled s nx ny xs ys :=
   supersampledStat_mean s nx ny xs ys
 
-/-- the statistic plays no role in whether and how the call fails (the code raises before it looks
-at the statistic) -/
-theorem supersampled_statistic_errors (st : Stat) (s : Shape) (nx ny : Nat) (xs ys : List Rat)
-    (e : SuperErr) :
-    supersampledStat st s nx ny xs ys = .error e ↔ supersampled s nx ny xs ys = .error e :=
-  supersampledStat_error_iff st s nx ny xs ys e
+/-- which exception a statistic raises: IndexError for a one-point axis whatever the statistic;
+for an oversampling factor 0 ZeroDivisionError with 'mean' (`0 / len(dithers)`), AttributeError with
+'sum' / 'min' / 'max' (`field.grid = grid` on the initial `0` / `None`) — found by the `superstat`
+tie: the first model said ZeroDivisionError for all four -/
+theorem supersampled_statistic_error_kinds (st : Stat) (s : Shape) (nx ny : Nat) (xs ys : List Rat) :
+    (supersampledStat st s nx ny xs ys = .error .index ↔ (xs.length < 2 ∨ ys.length < 2)) ∧
+    (supersampledStat st s nx ny xs ys = .error .zeroDiv ↔
+      (st = .mean ∧ 2 ≤ xs.length ∧ 2 ≤ ys.length ∧ (nx = 0 ∨ ny = 0))) ∧
+    (supersampledStat st s nx ny xs ys = .error .attribute ↔
+      (st ≠ .mean ∧ 2 ≤ xs.length ∧ 2 ≤ ys.length ∧ (nx = 0 ∨ ny = 0))) :=
+  ⟨supersampledStat_index_iff st s nx ny xs ys, supersampledStat_zero_iff st s nx ny xs ys⟩
 
 /-- … and every statistic is defined exactly where 'mean' is -/
 theorem supersampled_statistic_defined_iff (st : Stat) (s : Shape) (nx ny : Nat) (xs ys : List Rat) :
